@@ -26,6 +26,9 @@ RULE = ('(a) exhaustive: every list length n in 1..N (N=300 quick, 640 thorough)
         'query compared with a from-scratch computation; non-trivial = a truncate to a length '
         'that is not segment-aligned followed by an extension and a query. Thorough also '
         'enumerates all init/extend/truncate sequences up to length 3 over lengths <= 24. '
+        '(e) the checks of (a) on lists with repeated hashes (alphabet of 1..3 values, length '
+        '<= 40, plus fixed shapes such as [a,a], [a,b,c,c], [a,b,a,b]): the TSC marker is '
+        'positional; non-trivial = two sibling leaves are equal. '
         '(d) 2..4 branch_and_root calls started together over a static source whose reads '
         'complete in a generated order (in the server every read is a worker-thread job, so '
         'requests interleave at each read); each result compared with the from-scratch '
@@ -541,8 +544,51 @@ async def _enum_one(init, ak, a, bk, b, L):
 
 # ---------------------------------------------------------------------------------------------
 
+# ---- lists with repeated hashes ---------------------------------------------------------------------
+#
+# "For every non-empty list of hashes": also lists in which real sibling nodes carry the same hash
+# (repeated leaves, identical adjacent subtrees).  The TSC marker stands for a node *duplicated to
+# pair an odd level* - a matter of position, not of value.
+
+DUP_CASE = st.tuples(st.integers(1, 3),
+                     st.lists(st.integers(0, 2), min_size=1, max_size=40)).map(list)
+DUP_SHAPES = [[0, 0], [0, 0, 0], [0, 1, 2, 2], [0, 1, 0, 1], [0, 0, 1, 1], [0, 1, 1], [0, 0, 0, 0],
+              [0, 1, 2, 2, 3], [0, 1, 0, 1, 0, 1], [0] * 7, [0, 1] * 8, [0, 1, 2, 3] * 2 + [0, 1, 2],
+              [0, 1, 2, 3, 0, 1, 2, 3], [5, 5, 5, 5, 5], [1, 2, 2, 1]]
+
+
+def dup_body(ctx):
+    merkle = Merkle()
+
+    def body(case):
+        k, picks = case
+        hashes = [leaf(p % k, 7) for p in picks]
+        before = len(ctx.violations)
+        check_n(ctx, merkle, len(hashes), hashes)
+        equal_siblings = any(hashes[i] == hashes[i + 1] for i in range(0, len(hashes) - 1, 2))
+        ctx.record(case=case, nontrivial=equal_siblings,
+                   classes=['dup.case'] + (['dup.equal_sibling_leaves'] if equal_siblings else []),
+                   sample={'check': 'c12.duplicates', 'case': case})
+        if len(ctx.violations) > before:
+            v = ctx.violations.pop()
+            raise Violation(f'list with repeated hashes {picks[:16]} (alphabet {k}): '
+                            + v['message'], 'duplicates')
+    return body
+
+
+def run_duplicates(ctx):
+    body = dup_body(ctx)
+    for shape in DUP_SHAPES:
+        try:
+            body([max(shape) + 1, shape])
+        except Violation as v:
+            ctx.violation('c12.duplicates', [max(shape) + 1, shape], v.message, v.sig)
+    hyp_run(ctx, 'c12.duplicates', DUP_CASE, body, ctx.pick(300, 20000), frac=0.3)
+
+
 def run(ctx):
     run_branch_length(ctx)
+    run_duplicates(ctx)
     run_cache(ctx)
     if not ctx.quick:
         run_cache_enumerated(ctx)
@@ -570,6 +616,12 @@ def replay(ctx, check, case):
     if check == 'c12.cache':
         msg, _ = run_cache_case(case)
         return (msg, 'cache') if msg else None
+    if check == 'c12.duplicates':
+        try:
+            dup_body(ctx)(case)
+        except Violation as v:
+            return v.message, v.sig
+        return None
     if check == 'c12.concurrent':
         msg, _ = run_conc_case(case)
         return (msg, 'concurrent') if msg else None
